@@ -1,7 +1,7 @@
 """C13 (copy/assignment are deep) and C14 (property registry) - ownership, flag-synchronisation and protocol rules"""
 import re
 
-from .canon import Canon
+from .canon import Canon, ceq, eq_match, split_eq
 from .extract import AnalysisBroken
 from .facts import as_assign, estr, need_names, unwrap, walk
 from .rule_g import iter_sites
@@ -352,7 +352,7 @@ def run_c14(ck, fb, fbd):
             at = {(s_, p_) for s_, p_, c_ in cn.facts(b)}
             m = re.fullmatch(r"optional\(prop_ptr_from_storage\((.*)\)\)", cn.s(x.get("x")))
             E = m.group(1) if m else "?"
-            need = [("%s.shared()" % E, True), ("(%s.name() == P0)" % E, True), ("(%s.internal_type_name() == internal_type_name())" % E, True)]
+            need = [("%s.shared()" % E, True), (ceq("%s.name()" % E, "P0"), True), (ceq("%s.internal_type_name()" % E, "internal_type_name()"), True)]
             if not (all(nd in at for nd in need) and E.startswith("each(storage_tracker(")):
                 bad_match += 1
         if not pos_ret:
